@@ -296,6 +296,8 @@ class PredEval:
                         break
                 else:
                     self._block(st.orelse)
+            elif isinstance(st, ast.AnnAssign) and st.value is None:
+                continue  # a bare annotation
             elif isinstance(st, ast.Continue):
                 raise _Continue()
             elif isinstance(st, ast.Break):
